@@ -20,7 +20,11 @@ CLAIM = dict(
          "the next node is drawn with probability rate(u)/sum, the waiting time has rate = that sum, the new status is the chooser's answer; the loop ends "
          "exactly when the sum is 0 or t >= tmax; the loop cannot raise (no expovariate(0), no choice([])) - the only failures are a missing IC entry and the full-data constructor; "
          "rows count the replayed statuses; for every draw script the whole program equals (same calls to the random source, same outputs incl. the arguments of every user callback) "
-         "the textbook direct method that recomputes every rate from scratch. Tie: extracted model vs /repo on random and "
+         "the textbook direct method that recomputes every rate from scratch. With the calls (coq/Props/C15x.v): for every draw script a returning run is the initial fill + "
+         "a sequence of steps + the stop rule, and the logged trace is exactly their calls: every waiting time is drawn with total_weight() == the sum of the user's rates over all nodes "
+         "on the current statuses, choose_random is offered exactly the nodes with a positive current rate, every event node has a positive current rate, event times never go back and "
+         "stay below tmax, and the complete log of user-function calls is: per event transition_choice on the statuses before, then AFTER the change rate_function at the node, "
+         "get_influence_set at the node and rate_function at exactly its members; rows, histories and that call log are functions of one chronological event list. Tie: extracted model vs /repo on random and "
          "exhaustively enumerated draw scripts (threshold/SIS/SIR/cascade/long-range families and arbitrary rate tables; string/tuple labels and statuses), "
          "comparing every call to the random source, the outputs and the arguments every user callback received. An independent Python oracle replays the "
          "implementation's trace against rates recomputed from scratch; a separate binary64 search looks for rate tables whose running total does not cancel.",
@@ -163,6 +167,7 @@ def run(run, tier):
     # 3. binary64 residue search (outside the exact model)
     tried, hits = residue_search(EoN, sim, tier)
     residue = report_residue(run, tried, hits)
+    C.extra_props(run, 'C15', props, ['C15x'])
     if not props['ok']:
         run.violation('C15/proof', 'Props/C15.v no longer checks: %s' % props['log'][-400:], {'broken': 'coq/Props/C15.v', 'log': props['log']}, no_input=True)
     dist = dict(res.stats)
